@@ -206,9 +206,11 @@ func init() {
 	// must still be consumed in that producer's order (conc_order.go), and nothing may be forgotten
 	// (audit at quiescence).
 	c16 := &ConcOpts{
-		Profile: Profile{Prop: "C16", NoRef: true, Keys: [2]int{1, 6}},
-		OpW:     zeroExcept(map[string]int{"set": 44, "setifabsent": 4, "compute": 8, "invalidate": 10, "get": 6, "computeifpresent": 3}),
-		Tasks:   [2]int{1, 4}, OpsPer: [2]int{8, 40}, Prefill: [2]int{0, 4},
+		Profile: Profile{Prop: "C16", NoRef: true, Keys: [2]int{1, 6}, TinyWriteBuf: true},
+		// ordered traversals hold the eviction lock while their loop body runs: writers then find the
+		// buffer full for all their retries and take the help-out path (afterWriteTask -> performCleanUp)
+		OpW:   zeroExcept(map[string]int{"set": 44, "setifabsent": 4, "compute": 8, "invalidate": 10, "get": 6, "computeifpresent": 3, "hottest": 3, "coldest": 3, "setmax": 1, "invalidateall": 2}),
+		Tasks: [2]int{1, 5}, OpsPer: [2]int{8, 40}, Prefill: [2]int{0, 4},
 		Executors: []string{"sync", "queued", "queued", "default"},
 		NonTrivial: func(o *ConcOutcome) bool {
 			return o.Probes["producer-order-notifications-checked"] > 1 || o.Switches > 4
